@@ -87,8 +87,83 @@ let check_hb id what (input : action list) (d : int) (go : sx) =
     end
   end
 
+(* ---------- large plans: the fast lifecycle validator (FastPlan.v, C04_fast_exact) ---------- *)
+
+let faction_of_sx (s : sx) : faction =
+  let k = match tag s with
+    | "C" -> KCommit | "F" -> KFork | "M" -> KMerge | "E" -> KEmerge
+    | "D" -> KDelete | "H" -> KHibernate | "B" -> KBoot
+    | t -> failwith ("unknown action " ^ t) in
+  match args s with
+  | c :: its ->
+      let c = int_of_sx c in
+      { fkind = k; fcommit = (if c >= 0 then Some (n_of_int c) else None);
+        fitems = List.rev (List.rev_map (fun x -> z_of_int (int_of_sx x)) its) }
+  | [] -> failwith "action without commit field"
+
+let fplan_of_list (l : sx list) : faction list = List.rev (List.rev_map faction_of_sx l)
+
+let show_faction (a : faction) : string =
+  let k = match a.fkind with
+    | KCommit -> "C" | KFork -> "F" | KMerge -> "M" | KEmerge -> "E"
+    | KDelete -> "D" | KHibernate -> "H" | KBoot -> "B" in
+  let its = List.map (fun z -> string_of_int (int_of_z z)) a.fitems in
+  let its = if List.length its > 14 then List.filteri (fun i _ -> i < 14) its @ ["..."] else its in
+  Printf.sprintf "(%s %d %s)" k (match a.fcommit with Some c -> int_of_n c | None -> -1) (String.concat " " its)
+
+(* diagnosis only (the verdict is fast_c04): the first action the per-action test rejects, with the state of the
+   branches it mentions *)
+let first_reject (p : faction list) : string =
+  let rec go k m = function
+    | [] -> if fnothing_hibernated m then "no single action is rejected" else "a branch is left hibernated at the end of the plan"
+    | a :: r ->
+        if fstep_okb m a && fmerge_same m a then go (k + 1) (fstep m a) r
+        else begin
+          let show b = match fget m b with
+            | None -> "does not exist" | Some (FLive, Some c) -> Printf.sprintf "is live (last commit %d)" (int_of_n c)
+            | Some (FLive, None) -> "is live and fresh" | Some (FHib, _) -> "is hibernated" | Some (FDisp, _) -> "has been disposed" in
+          Printf.sprintf "action %d %s: %s%s" k (show_faction a)
+            (String.concat "; " (List.filteri (fun i _ -> i < 14)
+               (List.map (fun b -> Printf.sprintf "branch %d %s" (int_of_z b) (show b)) a.fitems)))
+            (if fnodup a.fitems then "" else "; a branch is listed twice")
+        end in
+  go 0 finit p
+
+let scale_case id c =
+  let obs = args (field "obs" c) in
+  count "scale_graphs";
+  let judge what d (p : faction list) =
+    count "full_plans_validated"; count "scale_plans_validated";
+    add "scale_actions_validated" (List.length p);
+    let maxb = List.fold_left (fun m a -> List.fold_left (fun m b -> max m (int_of_z b)) m a.fitems) 0 p in
+    if maxb >= 65536 then count "scale_plans_with_branch_index_ge_65536";
+    if List.exists (fun a -> a.fkind = KHibernate) p then count "scale_plans_with_hibernation";
+    if not (fast_c04 p) then
+      propfail id (Printf.sprintf "%s (distance %d) of a large history is rejected by the lifecycle validator fast_c04: %s" what d (first_reject p)) in
+  let not_hb a = a.fkind <> KHibernate && a.fkind <> KBoot in
+  let gcp = ref None in
+  List.iter (fun o ->
+    match tag o with
+    | ("gen" | "gc" | "hb" | "full") when is_panic o ->
+        propfail id (Printf.sprintf "%s panicked on a large history: %s" (tag o) (string_of_sx o))
+    | "gc" -> let p = fplan_of_list (args o) in gcp := Some p; judge "generatePlan;collectGarbage" 0 p
+    | "hb" ->
+        let d = int_of_sx (List.hd (args o)) in
+        let p = fplan_of_list (List.tl (args o)) in
+        judge "generatePlan;collectGarbage;insertHibernateBoot" d p;
+        (match !gcp with
+         | Some g when List.filter not_hb p <> g ->
+             propfail id (Printf.sprintf "erasing hibernate/boot from the output of insertHibernateBoot(d=%d) on a large plan does not give back the input" d)
+         | _ -> ())
+    | "full" ->
+        let d = int_of_sx (List.hd (args o)) in
+        count "prepare_run_plan_calls";
+        judge "the plan of prepareRunPlan" d (fplan_of_list (List.tl (args o)))
+    | _ -> ()) obs
+
 let () =
   iter_cases (fun id c ->
+    if field_opt "shape" c <> None then scale_case id c else
     let obs = args (field "obs" c) in
     match field_opt "ops" c with
     | Some ops ->
